@@ -136,13 +136,15 @@ func checkC19(c *Ctx) {
 					}
 				}
 				for _, tv := range tested {
-					if f.Signature.Recv() == nil || !isNode(f.Signature.Recv().Type()) || len(f.Params) == 0 {
-						break
+					// "own" payload: of the receiver, or of the node handed to a visitor function (func(cur *Node))
+					isOwnNode := func(v ssa.Value) bool {
+						p, ok := deepStripLocal(v).(*ssa.Parameter)
+						return ok && p.Parent() == f && isNode(p.Type())
 					}
 					ts := c.nodeTests(tv, isNode, 2)
 					onlyOwnPayload := len(ts) > 0
 					for _, t := range ts {
-						if t.field != payload || deepStripLocal(t.base) != ssa.Value(f.Params[0]) {
+						if t.field != payload || !isOwnNode(t.base) {
 							onlyOwnPayload = false
 						}
 					}
@@ -185,6 +187,8 @@ func checkC19(c *Ctx) {
 				}
 			}
 			ru3.Check(bad == "", "payload emptiness predicate across "+strings.Join(names, ", "), "-", "same predicate in "+fmt.Sprint(len(names))+" functions: "+short(ref, 120), "the functions disagree on when a node counts as holding a value: "+bad)
+		} else if len(names) == 1 {
+			ru3.OK("payload emptiness predicate of package "+pkg, "-", "decided in one place only ("+names[0]+": "+strings.Join(predTerms[names[0]], " ; ")+"): nothing to disagree with")
 		}
 	}
 	c.ruleFullTraversal("C19-R4", 2)
@@ -192,6 +196,93 @@ func checkC19(c *Ctx) {
 
 // nilGuardedMap: the MapUpdate through field address fa is dominated by an If on "(node).Children == nil" whose true branch stores a fresh map into the same field.
 func (c *Ctx) nilGuardedMap(f *ssa.Function, fa *ssa.FieldAddr, at ssa.Instruction) bool {
+	if c.nilGuardedMapHere(f, fa, at) {
+		return true
+	}
+	// a method called on the same node before the store allocates the map on every path (n.lookup(token) / n.child(token))
+	nodeTerm := core.Term(fa.X)
+	for _, cl := range core.CallsIn(f) {
+		g := cl.Static
+		if g == nil || g == f || len(cl.Common.Args) == 0 || len(g.Params) == 0 || len(g.Blocks) == 0 || !core.Dominates(cl.Instr, at) || core.Term(cl.Common.Args[0]) != nodeTerm {
+			continue
+		}
+		if !types.Identical(derefT(g.Params[0].Type()), derefT(fa.X.Type())) {
+			continue
+		}
+		if c.ensuresChildren(g, fa.Field, 2) {
+			return true
+		}
+	}
+	return false
+}
+
+// ensuresChildren: on every returning path of method g the children map (field idx) of its receiver has been
+// nil-checked and allocated: g does so itself in a block that dominates all its returns, or calls such a method on its receiver first.
+func (c *Ctx) ensuresChildren(g *ssa.Function, field int, depth int) bool {
+	var rets []*ssa.BasicBlock
+	for _, b := range g.Blocks {
+		if _, ok := b.Instrs[len(b.Instrs)-1].(*ssa.Return); ok {
+			rets = append(rets, b)
+		}
+	}
+	domAll := func(in ssa.Instruction) bool {
+		for _, r := range rets {
+			if !in.Block().Dominates(r) {
+				return false
+			}
+		}
+		return len(rets) > 0
+	}
+	for _, b := range g.Blocks {
+		for _, in := range b.Instrs {
+			fa, ok := in.(*ssa.FieldAddr)
+			if !ok || fa.Field != field || core.Strip(fa.X) != ssa.Value(g.Params[0]) {
+				continue
+			}
+			// a load of the field compared with nil whose true branch stores a fresh map, the test dominating all returns
+			if fa.Referrers() == nil {
+				continue
+			}
+			for _, r := range *fa.Referrers() {
+				ld, ok := r.(*ssa.UnOp)
+				if !ok || ld.Referrers() == nil {
+					continue
+				}
+				for _, rr := range *ld.Referrers() {
+					bo, ok := rr.(*ssa.BinOp)
+					if !ok || bo.Op != token.EQL || !domAll(bo) {
+						continue
+					}
+					iff, ok := bo.Block().Instrs[len(bo.Block().Instrs)-1].(*ssa.If)
+					if !ok || iff.Cond != ssa.Value(bo) {
+						continue
+					}
+					tb := bo.Block().Succs[0]
+					for _, in2 := range tb.Instrs {
+						if st, ok := in2.(*ssa.Store); ok {
+							if fa2, ok := st.Addr.(*ssa.FieldAddr); ok && fa2.Field == field && core.Strip(fa2.X) == ssa.Value(g.Params[0]) {
+								if _, isMake := st.Val.(*ssa.MakeMap); isMake {
+									return true
+								}
+							}
+						}
+					}
+				}
+			}
+		}
+	}
+	if depth > 0 {
+		for _, cl := range core.CallsIn(g) {
+			h := cl.Static
+			if h != nil && h != g && len(h.Blocks) > 0 && len(cl.Common.Args) > 0 && len(h.Params) > 0 && core.Strip(cl.Common.Args[0]) == ssa.Value(g.Params[0]) && domAll(cl.Instr) && c.ensuresChildren(h, field, depth-1) {
+				return true
+			}
+		}
+	}
+	return false
+}
+
+func (c *Ctx) nilGuardedMapHere(f *ssa.Function, fa *ssa.FieldAddr, at ssa.Instruction) bool {
 	fieldTerm := core.Term(fa) // &(node).Children
 	for _, b := range f.Blocks {
 		iff, ok := b.Instrs[len(b.Instrs)-1].(*ssa.If)
@@ -620,10 +711,8 @@ func (c *Ctx) ruleRetainedWildcardParent(id string) {
 		}
 		for _, b := range f.Blocks {
 			for _, in := range b.Instrs {
-				if bo, ok := in.(*ssa.BinOp); ok && bo.Op == token.EQL {
-					if k, ok := bo.Y.(*ssa.Const); ok && k.Value != nil && k.Value.ExactString() == `"#"` {
-						wild = true
-					}
+				if bo, ok := in.(*ssa.BinOp); ok && isWildcardTest(bo) {
+					wild = true
 				}
 			}
 		}
@@ -635,20 +724,31 @@ func (c *Ctx) ruleRetainedWildcardParent(id string) {
 		return
 	}
 	c.R.Fn(c.fname(match))
-	rootedHere := func(cl *core.Call) bool {
-		g := cl.Static
-		if g == nil || len(cl.Common.Args) == 0 || core.Strip(cl.Common.Args[0]) != ssa.Value(match.Params[0]) {
+	// rooted(g): calling g on a node enumerates the subtree rooted at that node: g is a subtree enumeration, or hands its own receiver to one
+	var rooted func(g *ssa.Function, depth int) bool
+	rooted = func(g *ssa.Function, depth int) bool {
+		if g == nil || len(g.Params) == 0 {
 			return false
 		}
 		if enums[g] {
 			return true
 		}
+		if depth == 0 {
+			return false
+		}
 		for _, in := range core.CallsIn(g) {
-			if in.Static != nil && enums[in.Static] && len(in.Common.Args) > 0 && len(g.Params) > 0 && core.Strip(in.Common.Args[0]) == ssa.Value(g.Params[0]) {
+			if in.Static != nil && in.Static != g && len(in.Common.Args) > 0 && core.Strip(in.Common.Args[0]) == ssa.Value(g.Params[0]) && rooted(in.Static, depth-1) {
 				return true
 			}
 		}
 		return false
+	}
+	rootedHere := func(p *core.Path, cl *core.Call) bool {
+		g := cl.Static
+		if g == nil || len(cl.Common.Args) == 0 || core.Strip(p.Resolve(core.Strip(cl.Common.Args[0]))) != ssa.Value(match.Params[0]) {
+			return false
+		}
+		return rooted(g, 3)
 	}
 	paths, err := core.EnumPaths(match, core.PathOpts{})
 	if err != nil {
@@ -660,10 +760,8 @@ func (c *Ctx) ruleRetainedWildcardParent(id string) {
 	for _, p := range paths {
 		isWild := false
 		for _, d := range decisions(p) {
-			if bo, ok := d.Cond.(*ssa.BinOp); ok && bo.Op == token.EQL && d.Val {
-				if k, ok := bo.Y.(*ssa.Const); ok && k.Value != nil && k.Value.ExactString() == `"#"` {
-					isWild = true
-				}
+			if bo, ok := d.Cond.(*ssa.BinOp); ok && isWildcardTest(bo) && d.Val == (bo.Op == token.EQL) {
+				isWild = true
 			}
 		}
 		if !isWild {
@@ -672,7 +770,7 @@ func (c *Ctx) ruleRetainedWildcardParent(id string) {
 		n++
 		ok := false
 		for _, pc := range p.Calls() {
-			if rootedHere(pc.Call) {
+			if rootedHere(p, pc.Call) {
 				ok = true
 			}
 		}
@@ -681,4 +779,18 @@ func (c *Ctx) ruleRetainedWildcardParent(id string) {
 		}
 	}
 	ru.Check(bad == "" && n > 0, "'#' arm of "+c.fname(match), c.whereF(match), fmt.Sprintf("%d path(s) under '#', each enumerates the subtree rooted at the current node", n), bad+map[bool]string{true: "", false: "no path decides token == '#'"}[n > 0 || bad != ""])
+}
+
+
+// isWildcardTest: a (dis)equality between something and the multi-level wildcard constant "#".
+func isWildcardTest(bo *ssa.BinOp) bool {
+	if bo.Op != token.EQL && bo.Op != token.NEQ {
+		return false
+	}
+	for _, v := range []ssa.Value{bo.X, bo.Y} {
+		if k, ok := v.(*ssa.Const); ok && k.Value != nil && k.Value.ExactString() == `"#"` {
+			return true
+		}
+	}
+	return false
 }
